@@ -81,4 +81,24 @@ theorem tcp_connect_sync_vs_delayed (c : Conn) (e : Int) (hc : c.closing = false
   · simp [tcpConnect, hc, hn, hd, h0, h1, h2]
   · simp [tcpConnect, hc, hn, hd, ECONNREFUSED, EINPROGRESS]
 
+/-- `uv_pipe_connect2`: *every* connect(2) result other than 0 / EINPROGRESS (EAGAIN of a full backlog, ENOENT,
+ECONNREFUSED, EACCES, …) is parked in `delayed_error`, the call returns 0, the callback is forced on the
+next tick and then reports exactly that error — never 0 — whatever SO_ERROR says -/
+theorem pipe_connect_errors_via_callback (c : Conn) (r so : Int) (hc : c.closing = false)
+    (h0 : r ≠ 0) (h1 : r ≠ EINPROGRESS) :
+    (pipeConnect c 0 0 r).2 = 0 ∧ (pipeConnect c 0 0 r).1.delayedError = r ∧ (pipeConnect c 0 0 r).1.fed = true ∧
+    (pipeConnect c 0 0 r).1.connectReq = some c.nextReq ∧
+    (streamConnect (pipeConnect c 0 0 r).1 so).cbs = c.cbs ++ [(c.nextReq, r)] := by
+  have hs : (pipeConnect c 0 0 r) =
+      ({ c with fdOpen := true, delayedError := r, connectReq := some c.nextReq, nextReq := c.nextReq + 1,
+                accepted := c.accepted ++ [c.nextReq], fed := true }, 0) := by
+    simp [pipeConnect, hc, h0, h1]
+  rw [hs]
+  refine ⟨rfl, rfl, rfl, rfl, ?_⟩
+  simp only [streamConnect, hc, flushWrites]
+  simp [h0, h1]
+  split <;> simp
+
+example : (streamConnect (pipeConnect {} 0 0 EAGAIN).1 0).cbs = [(0, EAGAIN)] := by decide
+
 end UvModel.Accept
